@@ -42,7 +42,9 @@ class Obligation(object):
 
 
 class LoopSpec(object):
-    def __init__(self, invariant=None, heap_modifies=None, keep_locals=(), ghost=None):
+    def __init__(self, invariant=None, heap_modifies=None, keep_locals=(), ghost=None, body_post=None, at_entry=None):
+        self.body_post = body_post          # fn(engine, st, fr, ctx, events of this iteration) -> [(name, formula)]
+        self.at_entry = at_entry            # fn(engine, st, fr, ctx) -> [(name, formula)] checked once at loop entry
         self.invariant = invariant          # fn(engine, st, fr, ctx) -> list[(name, formula)]
         self.heap_modifies = heap_modifies  # None = everything; else list of heap array names
         self.keep_locals = keep_locals
@@ -154,6 +156,8 @@ class Engine(object):
             return z3.And(f)
         if ty == "future":
             return z3.And(Val.is_ref(t), cls_of(Val.id(t)) == self.tag("ForeignFuture"))
+        if ty == "anyfuture":
+            return z3.And(Val.is_ref(t), z3.Or(cls_of(Val.id(t)) == self.tag("ForeignFuture"), cls_of(Val.id(t)) == self.tag("Future")))
         if ty == "executor":
             return z3.And(Val.is_ref(t), cls_of(Val.id(t)) == self.tag("ForeignExecutor"))
         if ty == "callable":
@@ -368,7 +372,14 @@ class Engine(object):
                 return v.t
             if s in ("int", "real"):
                 return v.t != 0
-            return self.truth_val(st, v.t, v.ty)
+            r = self.truth_val(st, v.t, v.ty)
+            if v.ty in (None, "any"):
+                # bool() of a user value is an observation at this instant (containers are mutable)
+                b = fresh("truthy", B)
+                st.assume(b == r)
+                st.trace.append(Event("truth", args=[v.t], ret=b))
+                return b
+            return r
         raise Unsupported("truth(%r)" % (v,))
 
     def truth_val(self, st, t, ty):
@@ -378,7 +389,7 @@ class Engine(object):
             return st.get("$len", Val.id(t)) != 0
         if isinstance(ty, tuple) and ty[0] in ("inst", "sub", "weakref"):
             return z3.BoolVal(True)
-        if ty in ("future", "executor", "callable", "exc", "lock", "rlock", "event", "thread", "logger", "metric", "weakref"):
+        if ty in ("future", "anyfuture", "executor", "callable", "exc", "lock", "rlock", "event", "thread", "logger", "metric", "weakref"):
             return z3.BoolVal(True)      # A-TRUTHY / futures and executors define no __bool__/__len__
         if ty == "str":
             return str_truthy(Val.sid(t))
@@ -1144,6 +1155,14 @@ class Engine(object):
         kwargs = dict(kwargs)
         bound = {}
         star_rest = star            # ArgPack / TupleV / list Z
+        if starkw is not None:
+            sk = self.resolve(st, starkw)
+            if isinstance(sk, Z) and sk.ty == "kwdict":
+                kd = st.objreg[self.concrete_id(sk.t)]
+                if kd.base is None:
+                    for k_, v_ in kd.known.items():
+                        kwargs.setdefault(k_, v_)
+                    starkw = None
         if isinstance(star, TupleV):
             args = args + list(star.items)
             star_rest = None
